@@ -1,15 +1,17 @@
 import ZenonVerif.Model.Versioned
+import ZenonVerif.Model.Crash
 import Driver.Core
 /-
 Driver for the `vdb` stream: replays commit / pop / view / read / write operations through the model of the
 versioned store and the view tree.
 -/
 namespace ZV.Driver
-open ZV ZV.Kv ZV.Versioned
+open ZV ZV.Kv ZV.Versioned ZV.Crash
 
 structure VdbSt where
   ldb : Ldb := Ldb.empty
   views : Views := []
+  lastPlan : List Batch := []      -- write plan of the most recent commit / rollback (C08)
 
 def parseId (s : String) : Option Id :=
   match s.splitOn ":" with
@@ -47,6 +49,57 @@ def showOps (p : Patch) : String :=
 def showEntries (r : Raw) : String :=
   if r.isEmpty then "empty" else ",".intercalate (r.map (fun e => showHex e.1 ++ "=" ++ showHex e.2))
 
+/-- symbolic rendering of the bookkeeping keys (same convention as the harness) -/
+def symKey (k : Bytes) : String :=
+  if k = keyFrontierId then "M0"
+  else if Gen.heightByHashPrefix.length ≤ k.length ∧ isPrefix Gen.heightByHashPrefix k ∧ k.length = 9 then
+    "M1:" ++ toHex (k.drop Gen.heightByHashPrefix.length)
+  else if isPrefix Gen.entryByHeightPrefix k ∧ k.length = 9 ∧ k.head? = some 2 then
+    "M2:" ++ toString (beVal (k.drop 1))
+  else showHex k
+
+def symVal (k v : Bytes) : String :=
+  if k = keyFrontierId then toString (decId v).height ++ ":" ++ toHex (decId v).hash
+  else if isPrefix Gen.heightByHashPrefix k ∧ k.length = 9 ∧ k.head? = some 1 then toString (beVal v)
+  else if isPrefix Gen.entryByHeightPrefix k ∧ k.length = 9 ∧ k.head? = some 2 then toHex v
+  else showHex v
+
+def symOp : Op → String
+  | .put k v => "p:" ++ symKey k ++ "=" ++ symVal k v
+  | .del k => "d:" ++ symKey k
+
+def symOps (p : Patch) : String := "[" ++ ",".intercalate (p.map symOp) ++ "]"
+
+def isUserKey (k : Bytes) : Bool := match k with | b :: _ => b ≥ 3 | [] => false
+
+def showW : W → String
+  | .redo h (some p) => s!"R{h}=" ++ symOps p
+  | .redo h none => s!"R{h}=DEL"
+  | .undo h (some p) => s!"U{h}=" ++ symOps p
+  | .undo h none => s!"U{h}=DEL"
+  | .front k raw =>
+    "F" ++ symKey k ++ "=" ++
+      (match raw with
+       | [] => "T"
+       | _ :: v => if isUserKey k then toHex raw else symVal k v)
+
+def showPlan (plan : List Batch) : String :=
+  let bs := plan.map (fun b => if b.isEmpty then "none" else ",".intercalate (b.map showW))
+  s!"{plan.length} " ++ " ; ".intercalate bs
+
+/-- FNV-1a (64 bit) over the logical entries of the frontier outside the bookkeeping keys: for each entry
+    be32 |k|, be32 |v|, k, v. Same function as `fnv64` in the harness. -/
+def fnvFeed (h : Nat) (b : Nat) : Nat := ((h ^^^ b) * 1099511628211) % 18446744073709551616
+
+def fnvEntries (es : Raw) : Nat :=
+  es.foldl (fun h e =>
+    let bytes := beBytes 4 e.1.length ++ beBytes 4 e.2.length ++ e.1 ++ e.2
+    bytes.foldl fnvFeed h) 14695981039346656037
+
+def frontierDigest (l : Ldb) : String :=
+  let es := (edEntries l.frontier).filter (fun e => isUserKey e.1)
+  s!"{es.length} {fnvEntries es}"
+
 def vdbStep (st : VdbSt) : List String → Option (VdbSt × String)
   | ["vdb-reset"] => some ({}, "ok")
   | ["vdb-add", prev, id, ops] => do
@@ -54,12 +107,14 @@ def vdbStep (st : VdbSt) : List String → Option (VdbSt × String)
     let id ← parseId id
     let ops ← parseOps ops
     match st.ldb.add prev id ops with
-    | none => pure (st, "err")
-    | some l => pure ({ st with ldb := l }, "ok")
+    | none => pure ({ st with lastPlan := [] }, "err")
+    | some l => pure ({ st with ldb := l, lastPlan := planAdd st.ldb prev id ops }, "ok")
   | ["vdb-pop"] =>
     match st.ldb.pop with
-    | none => some (st, "err")
-    | some l => some ({ st with ldb := l }, "ok")
+    | none => some ({ st with lastPlan := [] }, "err")
+    | some l => some ({ st with ldb := l, lastPlan := planPop st.ldb }, "ok")
+  | ["crash-plan"] => some (st, showPlan st.lastPlan)
+  | ["sync-digest", _] => some (st, frontierDigest st.ldb)
   | ["vdb-view", name, id] => do
     let id ← parseId id
     match st.ldb.get id with
